@@ -22,7 +22,7 @@ MANIFEST = {
             "them), node-list formatting of Builder/Compiler (format_node), format_feature/type_id/data. AArch64 operand and named-label "
             "parse-back are monitored on every run, not proved for all inputs. The encoder's bytes are inputs here (C01/C02).",
 }
-MODS = ["AsmjitVerif.Props.C20", "AsmjitVerif.Props.C20Names", "AsmjitVerif.Props.C20Mem", "AsmjitVerif.Props.C20Read", "AsmjitVerif.Props.C20Line", "AsmjitVerif.Props.C20A64Line"]
+MODS = ["AsmjitVerif.Props.C20", "AsmjitVerif.Props.C20Names", "AsmjitVerif.Props.C20Mem", "AsmjitVerif.Props.C20Read", "AsmjitVerif.Props.C20Line", "AsmjitVerif.Props.C20A64Line", "AsmjitVerif.Props.C20Node"]
 
 M64 = (1 << 64) - 1
 FF = {"mc": 0x1, "alias": 0x8, "explain": 0x10, "heximm": 0x20, "hexoff": 0x40, "casts": 0x100, "pos": 0x200, "regtype": 0x400}
@@ -528,6 +528,41 @@ class Gen:
                     self.add("emit %d 0 - - r.5.0 m.4.0.0.-.-.0.%d.0.0" % (hdr["mov"], v), True)
         self.targets.append((tag, len(self.ops)))
 
+    def node_block(self, names, n, bind_labels):
+        """Builder nodes formatted by Formatter::format_node: instruction nodes (with and without inline comment), label, align,
+        embedded data, comment nodes; finally the whole list through format_node_list"""
+        rng = self.rng
+        a64 = self.arch == "a64"
+        count = len(names)
+        if bind_labels:
+            for l in range(self.nlabels):
+                self.add("node label %d" % l, True)
+        for k in range(n):
+            r = rng.random()
+            if r < 0.6:
+                iid = rng.randrange(1, count)
+                if a64 and rng.random() < 0.3:
+                    iid |= rng.randrange(16) << 27
+                opts = 0 if a64 or rng.random() < 0.6 else rng.choice((0x2000, 0x10, 0x20, 0x800, 0x1000, 0x40000000, 0x12000))
+                nops = rng.choice((0, 1, 2, 2, 3, 3, 4))
+                ops, wf = [], True
+                for _ in range(nops):
+                    o, w = self.operand()
+                    ops.append(o); wf &= w
+                if "-" in ops:
+                    wf = False
+                if a64 and (any(o.startswith("am.") and o.split(".")[6] == "0" for o in ops[:-1]) or any(o.startswith("rl.") for o in ops)):
+                    wf = False
+                comment = "-" if rng.random() < 0.6 else ("c%d x" % rng.randrange(100)).encode().hex()
+                self.add("node inst %d %x - %s %s" % (iid, opts, comment, " ".join(ops)), wf)
+            elif r < 0.72:
+                self.add("node align %d %d" % (rng.choice((0, 1, 2)), rng.choice((1, 2, 4, 8, 16, 32, 64, 4096))), True)
+            elif r < 0.86:
+                self.add("node embed %d %d %d" % (rng.choice((1, 2, 4, 8)), rng.randrange(0, 40), rng.randrange(1, 9)), True)
+            else:
+                self.add("node comment %s" % rng.choice(("hello world", "x", "a; b", "pad  ded")).encode().hex(), True)
+        self.add("nodelist")
+
     def misc_block(self, n):
         rng = self.rng
         for _ in range(n):
@@ -601,6 +636,23 @@ def gen_ops(rng, tier):
                         g.add("bind %d" % l)
                     g.emit_block(names, ids, 300 if quick else 2000)
                 first = False
+    # Builder sessions: node formatting
+    for arch in ("x64", "a64"):
+        names, ids = hdr[arch]
+        g.arch, g.comp = arch, False
+        g.nlabels, g.vregs = 0, []
+        g.add("init %s bld" % arch)
+        for l in ("lab a", "lab a", "lab n 2 main -", "lab n 1 loop 2", "lab n 1 inner 0", "lab n 0 tmp -", "lab n 3 ext_fn -",
+                  "lab n 2 Data_1 -", "lab n 1 loop 7", "lab a"):
+            g.add(l)
+        g.nlabels = 10
+        first = True
+        for f in (0x0, 0x60, 0x8, 0x68):
+            g.set_flags(f)
+            if f == 0x60:
+                g.add("logopts 0 30 0")
+            g.node_block(names, 150 if quick else 3000, first)
+            first = False
     return g
 
 
@@ -672,6 +724,8 @@ def monitor_line(op, ans):
         return "mon_op %s %s" % (w[1], ans)
     if w[0] == "inst" and ans.startswith("="):
         return "mon_inst %s %s" % (" ".join(w[1:]), ans)
+    if w[0] == "node" and ans.startswith("="):
+        return "mon_node %s %s" % (" ".join(w[1:]), ans)
     if w[0] == "emit" and ans.startswith("T "):
         text, hexb = split_emit_answer(ans)
         return "mon_emit %s %s %s %s %s %s =%s" % (w[1], w[2], w[3], w[4], hexb or "-", " ".join(w[5:]), text)
@@ -751,7 +805,8 @@ def run(res):
         "the syntax can express, label and virtual-register names that are identifiers and do not collide with register names); "
         "ill-formed inputs are compared model vs implementation only",
         "the bytes appended by the encoder and the size/position of the unresolved displacement are inputs of the log-line model (C01/C02/C03 own them)",
-        "Builder/Compiler node-list formatting (Formatter::format_node) is not covered",
+        "Builder nodes: inst/label/align/embed-data/comment/section through Formatter::format_node and format_node_list are modelled and tied; "
+        "Compiler-only nodes (func/ret/invoke/sentinel/const-pool/embed-label) and the kPositions prefix are not",
     ]
     broken = []
 
@@ -801,7 +856,7 @@ def run(res):
     archs, a = [], "?"
     for o in ops:
         if o.startswith("init "):
-            a = o.split()[1] + ("c" if o.split()[2] == "comp" else "")
+            a = o.split()[1] + {"comp": "c", "bld": "b"}.get(o.split()[2], "")
         archs.append(a)
     # model side: emit lines become logline lines carrying the implementation's bytes
     a64names = header_ids("a64")[0]
